@@ -74,6 +74,9 @@ class AbstractBenchParser(AbstractParser, metaclass=abc.ABCMeta):
         if line == '' or line == '\n' or line[0] == '#':
             # Empty or comment line
             return []
+        elif '=' in line:
+            # Operator Gate (its name may itself begin with `input`/`output`)
+            return self._process_operator_gate(line)
         elif line.upper().startswith('INPUT'):
             # Input Gate
             return self._process_input_gate(line)
